@@ -273,6 +273,14 @@ def child_lines(data):
     return lines, actual
 
 
+SHADER_ORDER = ['emission', 'ambient', 'diffuse', 'specular', 'shininess', 'reflective', 'reflectivity', 'transparent', 'transparency', 'index_of_refraction']
+SCALARS = ('shininess', 'reflectivity', 'transparency', 'index_of_refraction')
+
+
+class ShaderOrder(Exception):
+    pass
+
+
 def technique_ok(a):
     """child names in the order the schema asks for: (asset), images / newparams, ONE shader element, extras"""
     kids = a.split()
@@ -300,15 +308,29 @@ def technique_case(rng):
         elif rng.random() < 0.4:
             body += '<%s/>' % k          # every parameter of a shader is optional
         else:
-            body += '<%s><emission><color>0 0 0 1</color></emission></%s>' % (k, k)
+            have = [q for q in SHADER_ORDER if q in modelgen.SHADER_PARAMS[k] and rng.random() < 0.5]
+            body += '<%s>%s</%s>' % (k, ''.join('<%s>%s</%s>' % (q, '<float>0.5</float>' if q in SCALARS else '<color>0 0 0 1</color>', q) for q in have), k)
     xml = ('<COLLADA xmlns="%s" version="1.4.1"><asset><created>2001-01-01T00:00:00</created><modified>2001-01-01T00:00:00</modified></asset>'
            '<library_effects><effect id="fx"><profile_COMMON><technique sid="common">%s</technique></profile_COMMON></effect></library_effects></COLLADA>'
            % (NS[1:-1], body))
     d = collada.Collada(io.BytesIO(xml.encode()))
     e = d.effects[0]
     e.shadingtype = s
+    # values given and taken away after loading, within what the new shader has
+    for q in modelgen.SHADER_PARAMS[s]:
+        if rng.random() < 0.4:
+            setattr(e, q, rng.choice([None, 0.25 if q in SCALARS else (0.5, 0.25, 0.5, 1.0)]))
+    for q in SHADER_ORDER:
+        if q not in modelgen.SHADER_PARAMS[s]:
+            setattr(e, q, None)
     e.save()
     t = e.xmlnode.find(NS + 'profile_COMMON').find(NS + 'technique')
+    sh = [c for c in t if c.tag[len(NS):] == s]
+    if len(sh) == 1:
+        got = [c.tag[len(NS):] for c in sh[0]]
+        want = [q for q in SHADER_ORDER if getattr(e, q) is not None]
+        if got != want:
+            raise ShaderOrder('after Effect.save the <%s> element holds %s; the parameters that have a value are, in schema order, %s' % (s, got, want))
     return 'tech %s ; %s' % (s, ' '.join(kids)), ' '.join(c.tag[len(NS):] for c in t)
 
 
@@ -368,6 +390,11 @@ def run(ctx):
             key = 'c04t/%s/%d' % (ctx.rng.randrange(10 ** 9), i)
             try:
                 l, a = technique_case(random.Random(key))
+            except ShaderOrder as e:
+                if 'shader-order' not in reported:
+                    reported.add('shader-order')
+                    ctx.violation('c04:invalid:shader-parameter-order', str(e), dict(kind='technique', key=key))
+                continue
             except Exception as e:
                 core.note_skip('c04:technique-case', e)
                 continue
@@ -384,7 +411,11 @@ def run(ctx):
 
 def replay(ctx, rep):
     if rep.get('kind') == 'technique':
-        l, a = technique_case(random.Random(rep['key']))
+        try:
+            l, a = technique_case(random.Random(rep['key']))
+        except ShaderOrder as e:
+            print('  %s' % e)
+            return True
         print('  Effect.save on %r writes the <technique> children %r' % (l, a))
         return not technique_ok(a)
     doc, hist = build_case(rep['base'], rep['seed'], rep['nops'])
